@@ -13,6 +13,10 @@ def _jobs(tier):
         jobs.append(dict(sub="vec", count=geo(k, 3000, 7, 30) * mult, fix=dict(k=k)))
         jobs.append(dict(sub="module", count=geo(k, 2500, 7, 30) * mult, fix=dict(k=k)))
         jobs.append(dict(sub="module", count=geo(k, 600, 6, 8) * mult, fix=dict(k=k), flavour="asan"))
+    # homogeneous streaks: several hundred consecutive calls of ONE entry point on small data in one process (what an application
+    # does all day) -- usage counters and "self-tuning" state only move when nothing else intervenes
+    for call in range(0, 11):
+        jobs.append(dict(sub="module", count=450 * mult, fix=dict(call=call, k=(4, 7), mtype=0, cfg=0, bits=(1, 10))))
     jobs.append(dict(sub="tables", count=4000 * mult, fix=dict(logm=(0, 7)), split=2))
     jobs.append(dict(sub="tables", count=400 * mult, fix=dict(logm=(8, 12))))
     jobs.append(dict(sub="tables", count=60 * mult, fix=dict(logm=(13, 16), fn=(0, 3), nbuf=(1, 2)), split=2))
